@@ -397,12 +397,40 @@ def run(ctx, repo, tier):
         half = Poly.const(1) / 2
         mid = (half * r_at(j) + half * r_at(j + 1))
         last = (r_at(j + n - 1) + half * r_at(n - 1) - half * r_at(n - 2))
+        mid_f = lambda jj: half * r_at(jj) + half * r_at(jj + 1)
+        last_f = lambda jj: r_at(jj + n - 1) + half * r_at(n - 1) - half * r_at(n - 2)
         spec = [("0", (n - 1).pretty(), mid.pretty()), ((n - 1).pretty(), "1", last.pretty())]
         if inc0:
             spec = [("0", "1", "0"), ("1", (n - 1).pretty(), mid.pretty()), (n.pretty(), "1", last.pretty())]
-        ctx.check(got == spec, "KERNEL", tag, "shell boundaries: R_k midway between consecutive radii, last boundary half the last "
-                  "increment above the last radius" + ("; 0 prepended when include_zero" if inc0 else ""), gb.where,
-                  "between_radii = my_array + increments", witness=f"derived {got} ; expected {spec}", derived=str(got))
+        # semantic comparison piece by piece (a piece of length one is compared at its only index)
+        specp = [(Poly.const(0), n - 1, lambda jj: mid_f(jj)), (n - 1, Poly.const(1), lambda jj: last_f(jj))]
+        if inc0:
+            specp = [(Poly.const(0), Poly.const(1), lambda jj: Poly.const(0)), (Poly.const(1), n - 1, lambda jj: mid_f(jj)),
+                     (n, Poly.const(1), lambda jj: last_f(jj))]
+        desc = "shell boundaries: R_k midway between consecutive radii, last boundary half the last increment above the last radius" + \
+            ("; 0 prepended when include_zero" if inc0 else "")
+        same_bounds = len(segs) == len(specp) and all(s_ == a_ and l_ == b_ for (s_, l_, _), (a_, b_, _) in zip(segs, specp))
+        if not same_bounds:
+            ctx.inconclusive("KERNEL", tag, "result of get_between_radii is split into pieces that do not line up with the specification",
+                             gb.where, witness=f"derived {got} ; expected {spec}")
+        else:
+            bad_piece = None
+            for (s_, l_, f_), (_, _, g_) in zip(segs, specp):
+                jj = Poly.const(0) if l_ == Poly.const(1) else j
+                v_ = f_(jj)
+                if not isinstance(v_, Num):
+                    bad_piece = ("?", vstr(v_)[:120])
+                    break
+                if not (v_.p - g_(jj)).is_zero():
+                    bad_piece = (s_.pretty(), f"{v_.p.pretty()} != {g_(jj).pretty()}")
+                    break
+            if bad_piece is None:
+                ctx.ok("KERNEL", tag, desc, gb.where, derived=str(got))
+            elif bad_piece[0] == "?":
+                ctx.inconclusive("KERNEL", tag, "a piece of the result is not a closed formula", gb.where, witness=bad_piece[1])
+            else:
+                ctx.violate("KERNEL", tag, desc, gb.where, "between_radii = my_array + increments",
+                            witness=f"piece starting at {bad_piece[0]}: {bad_piece[1]} ; derived {got}")
     # ---------------------------------------------------------------- single radius
     interp = Interp(repo, Hooks())
     res = interp.call_function(gb, [T.vec(interp, "r", Poly.const(1))], {})
